@@ -83,7 +83,7 @@ def c16_1(ctx: Ctx) -> RuleResult:
             construct="forbidden randomness sweep", where="src/ropt", fname="<package>")
     # positive control: the same sweep must fire on a variant that contains such a call
     control_src = "import numpy as np\n\n\ndef _verif_control():\n    return np.random.normal(size=3) + np.random.default_rng().normal()\n"
-    rel = "src/ropt/version.py"
+    rel = "src/ropt/_verif_control.py"
     try:
         crepo = Repo(ctx.repo.root, overrides={**ctx.repo.overrides, rel: control_src})
         from ..core import Ctx as _Ctx
@@ -290,7 +290,7 @@ def c16_3(ctx: Ctx) -> RuleResult:
             construct="shared-state sweep", where="src/ropt", fname="<package>")
     # positive control
     control_src = "_MEMO = {}\n\n\ndef _verif_control(key):\n    _MEMO[key] = 1\n    _MEMO.setdefault(key, 2)\n    return _MEMO\n"
-    crepo = Repo(ctx.repo.root, overrides={**ctx.repo.overrides, "src/ropt/version.py": control_src})
+    crepo = Repo(ctx.repo.root, overrides={**ctx.repo.overrides, "src/ropt/_verif_control.py": control_src})
     from ..core import Ctx as _Ctx
 
     hits = [h for h in shared_state_writes(_Ctx(crepo)) if h[0].name == "_verif_control"]
